@@ -510,16 +510,16 @@ class _GenerateRenderMethod:
         # which cannot be referenced beforehand.
         to_write = to_write.difference(identifiers.locally_declared)
 
+        # if a limiting set was sent, constraint to those items in that list
+        # (this is used for the caching decorator and for the defs of a call)
+        if limit is not None:
+            to_write = to_write.intersection(limit)
+
         if self.compiler.enable_loop:
             has_loop = "loop" in to_write
             to_write.discard("loop")
         else:
             has_loop = False
-
-        # if a limiting set was sent, constraint to those items in that list
-        # (this is used for the caching decorator)
-        if limit is not None:
-            to_write = to_write.intersection(limit)
 
         if toplevel and getattr(self.compiler, "has_ns_imports", False):
             self.printer.writeline("_import_ns = {}")
@@ -986,6 +986,16 @@ class _GenerateRenderMethod:
         # <%def>s within <%call> we want the current caller
         # off the call stack (if any)
         body_identifiers.add_declared("caller")
+
+        # the argument defaults, filter and cache arguments of the defs
+        # written inside the call are evaluated where those defs are
+        # defined, which is here: fetch the names no enclosing scope has
+        tag_names = set()
+        for n in node.nodes:
+            if isinstance(n, (parsetree.DefTag, parsetree.BlockTag)):
+                tag_names.update(n.undeclared_identifiers())
+        if tag_names.intersection(callable_identifiers.undeclared):
+            self.write_variable_declares(callable_identifiers, limit=tag_names)
 
         self.identifier_stack.append(body_identifiers)
 
